@@ -19,8 +19,8 @@ var ErrShort = errors.New("refproto: need more bytes")
 // W is an append-only encoder.
 type W struct{ B []byte }
 
-func (w *W) Byte(b byte)     { w.B = append(w.B, b) }
-func (w *W) Raw(b []byte)    { w.B = append(w.B, b...) }
+func (w *W) Byte(b byte)      { w.B = append(w.B, b) }
+func (w *W) Raw(b []byte)     { w.B = append(w.B, b...) }
 func (w *W) UVarint(v uint64) { w.B = binary.AppendUvarint(w.B, v) }
 func (w *W) Str(s string) {
 	w.UVarint(uint64(len(s)))
@@ -146,26 +146,26 @@ func (r *R) I64() (int64, error) { v, err := r.U64(); return int64(v), err }
 // Revisions at which wire features appear (src/Core/ProtocolDefines.h). This
 // table is the reference's own; it is deliberately not derived from ch-go.
 const (
-	RevTempTables             = 50264
-	RevBlockInfo              = 51903
-	RevTimezone               = 54058
-	RevQuotaKeyInClientInfo   = 54060
-	RevDisplayName            = 54372
-	RevVersionPatch           = 54401
-	RevServerLogs             = 54406
-	RevClientWriteInfo        = 54420
-	RevSettingsAsStrings      = 54429
-	RevInterServerSecret      = 54441
-	RevOpenTelemetry          = 54442
-	RevXForwardedFor          = 54443
-	RevReferer                = 54447
-	RevDistributedDepth       = 54448
-	RevQueryStartTime         = 54449
-	RevProfileEvents          = 54451
-	RevParallelReplicas       = 54453
-	RevCustomSerialization    = 54454
-	RevQuotaKeyAddendum       = 54458
-	RevParameters             = 54459
+	RevTempTables                = 50264
+	RevBlockInfo                 = 51903
+	RevTimezone                  = 54058
+	RevQuotaKeyInClientInfo      = 54060
+	RevDisplayName               = 54372
+	RevVersionPatch              = 54401
+	RevServerLogs                = 54406
+	RevClientWriteInfo           = 54420
+	RevSettingsAsStrings         = 54429
+	RevInterServerSecret         = 54441
+	RevOpenTelemetry             = 54442
+	RevXForwardedFor             = 54443
+	RevReferer                   = 54447
+	RevDistributedDepth          = 54448
+	RevQueryStartTime            = 54449
+	RevProfileEvents             = 54451
+	RevParallelReplicas          = 54453
+	RevCustomSerialization       = 54454
+	RevQuotaKeyAddendum          = 54458
+	RevParameters                = 54459
 	RevServerQueryTimeInProgress = 54460
 )
 
